@@ -26,7 +26,8 @@ Section Fem.
     let cr := cross o (vsub o p3 p2) (vsub o p1 p3) in
     two o * sqrtK o (dot o cr cr).
   (* vol[vol < eps] = 0.0001 * mean(vol) *)
-  Definition fix_small (thr : K) (repl : K) (x : K) : K := if ltb o x thr then repl else x.
+  (* vol[vol == 0] = 0.0001 * mean(vol)   (after fix 72e7cef: exact-zero test, as in _fem_tetra) *)
+  Definition fix_small (thr : K) (repl : K) (x : K) : K := if eqb o x (zero o) then repl else x.
   Definition tria_vols4 (v : V) (ts : list tri) : list K :=
     let raw := map (tria_vol4_raw v) ts in
     let vm := frac o 1 10000 * meanK raw in
